@@ -843,14 +843,17 @@ fn check_forest(case: &ForestCase, p: &mut Probe) -> Check {
         }
     }
     p.metric("error_unit_max", unit);
-    exact_one("flooding/Phif64", Phif64::new(), f64::EPSILON, &h, &llrs, &post, unit, false, p)?;
-    exact_one("layered/Phif64", Phif64::new(), f64::EPSILON, &h, &llrs, &post, unit, true, p)?;
-    exact_one("flooding/Tanhf64", Tanhf64::new(), f64::EPSILON, &h, &llrs, &post, unit, false, p)?;
-    exact_one("layered/Tanhf64", Tanhf64::new(), f64::EPSILON, &h, &llrs, &post, unit, true, p)?;
-    exact_one("flooding/Phif32", Phif32::new(), f32::EPSILON as f64, &h, &llrs, &post, unit, false, p)?;
-    exact_one("layered/Phif32", Phif32::new(), f32::EPSILON as f64, &h, &llrs, &post, unit, true, p)?;
-    exact_one("flooding/Tanhf32", Tanhf32::new(), f32::EPSILON as f64, &h, &llrs, &post, unit, false, p)?;
-    exact_one("layered/Tanhf32", Tanhf32::new(), f32::EPSILON as f64, &h, &llrs, &post, unit, true, p)?;
+    // the arithmetic objects come from new() or from Default::default() (both are public constructors)
+    let dflt = (case.h.ones.len() + case.llrs.len()) % 2 == 1;
+    p.class_if(dflt, "arithmetic-built-by-default");
+    exact_one("flooding/Phif64", super::impls::mk(Phif64::new, dflt), f64::EPSILON, &h, &llrs, &post, unit, false, p)?;
+    exact_one("layered/Phif64", super::impls::mk(Phif64::new, dflt), f64::EPSILON, &h, &llrs, &post, unit, true, p)?;
+    exact_one("flooding/Tanhf64", super::impls::mk(Tanhf64::new, dflt), f64::EPSILON, &h, &llrs, &post, unit, false, p)?;
+    exact_one("layered/Tanhf64", super::impls::mk(Tanhf64::new, dflt), f64::EPSILON, &h, &llrs, &post, unit, true, p)?;
+    exact_one("flooding/Phif32", super::impls::mk(Phif32::new, dflt), f32::EPSILON as f64, &h, &llrs, &post, unit, false, p)?;
+    exact_one("layered/Phif32", super::impls::mk(Phif32::new, dflt), f32::EPSILON as f64, &h, &llrs, &post, unit, true, p)?;
+    exact_one("flooding/Tanhf32", super::impls::mk(Tanhf32::new, dflt), f32::EPSILON as f64, &h, &llrs, &post, unit, false, p)?;
+    exact_one("layered/Tanhf32", super::impls::mk(Tanhf32::new, dflt), f32::EPSILON as f64, &h, &llrs, &post, unit, true, p)?;
     p.inner += 8;
     let deep = tree_depth_ge2(&case.h);
     p.class_if(deep, "depth>=2");
